@@ -63,6 +63,7 @@ pub fn eval(case: &Case) -> Verdict {
     let mut nested = false;
     let mut boundary = false;
     let mut special = false;
+    let mut wide = false;
     for v in &case.values {
         ra::walk(v, &mut |n| match n {
             V::Obj(p) => {
@@ -76,6 +77,11 @@ pub fn eval(case: &Case) -> Verdict {
             V::Arr(a) => {
                 if a.iter().any(ra::has_container) {
                     nested = true;
+                }
+            }
+            V::ArrRep(_, n) | V::ObjRep(_, n) => {
+                if *n >= 1024 {
+                    wide = true;
                 }
             }
             V::Str(s) => {
@@ -95,9 +101,10 @@ pub fn eval(case: &Case) -> Verdict {
     obs.class_if(nested, "nested-container");
     obs.class_if(boundary, "boundary-length-string-or-name");
     obs.class_if(special, "nan-or-negative-zero");
+    obs.class_if(wide, "container-with-1024-or-more-children");
     obs.class_if(empty_key, "empty-key-roundtripped");
     obs.class_if(case.values.is_empty(), "empty-list");
-    obs.nontrivial = nested || boundary || special;
+    obs.nontrivial = nested || boundary || special || wide;
     Verdict::Pass(obs)
 }
 
